@@ -11,9 +11,7 @@ Definition str_in (s : string) (l : list string) : bool := existsb (String.eqb s
 (* open section whose entries are all handled alike (ids, names) *)
 Definition open_section (name : string) (ae cs : bool) (f : kv -> list diag) : section unit :=
   Sec name ae cs [] (Some (pure_h f)).
-Definition run_open (name : string) (ae cs : bool) (f : kv -> list diag) (n : ynode) : list diag :=
-  run_section (open_section name ae cs f) tt (fun _ => []) n.
-(* closed/open section without state *)
+(* section without state *)
 Definition run_plain (s : section unit) (n : ynode) : list diag := run_section s tt (fun _ => []) n.
 
 (* ---------------------------------------------------------------- on: *)
@@ -22,8 +20,11 @@ Definition run_plain (s : section unit) (n : ynode) : list diag := run_section s
    [parse_schedule_item_old] is the code before repo_patches/parse/01-fix-schedule-
    cron-sibling.patch: a foreign key made the parser skip the value of cron
    (ParseProofs.schedule_item_old_suppresses). *)
+Definition schedule_item_flags := (false, true).   (* allowEmpty, caseSensitive *)
+Definition raw_map_flags := (true, false).
+
 Definition parse_schedule_item_old (c : ynode) : list diag :=
-  let '(d, m) := parse_mapping c false true in
+  let '(d, m) := parse_mapping c (fst schedule_item_flags) (snd schedule_item_flags) in
   d ++ match m with
        | [e] => if streq (kv_id e) "cron" then parse_string (kv_val e) false
                 else [at_node DScheduleItem c]
@@ -41,7 +42,7 @@ Fixpoint find_cron (m : list kv) : option ynode :=
   end.
 
 Definition parse_schedule_item (c : ynode) : list diag :=
-  let '(d, m) := parse_mapping c false true in
+  let '(d, m) := parse_mapping c (fst schedule_item_flags) (snd schedule_item_flags) in
   let cron := find_cron m in
   d ++ (if negb (length m =? 1) || (match cron with None => true | Some _ => false end)
         then [at_node DScheduleItem c] else [])
@@ -66,10 +67,12 @@ Definition sec_dispatch_input : section unit :=
       ("options", pure_h (fun e => parse_string_sequence (kv_val e) false false)) ]
     None.
 
+Definition sec_dispatch_inputs : section unit :=
+  open_section "inputs" true false (fun i => run_plain sec_dispatch_input (kv_val i)).
+
 Definition sec_workflow_dispatch : section unit :=
   Sec "workflow_dispatch" true true
-    [ ("inputs", pure_h (fun e =>
-         run_open "inputs" true false (fun i => run_plain sec_dispatch_input (kv_val i)) (kv_val e))) ]
+    [ ("inputs", pure_h (fun e => run_plain sec_dispatch_inputs (kv_val e))) ]
     None.
 
 Definition sec_repository_dispatch : section unit :=
@@ -116,12 +119,16 @@ Definition parse_call_output (name : kv) : list diag :=
   run_section sec_call_output true
     (fun value_nil => if value_nil then [D (DMissing MOutputValue) (kv_pos name)] else []) (kv_val name).
 
+Definition sec_call_inputs : section unit := open_section "inputs" true false parse_call_input.
+Definition sec_call_secrets : section unit :=
+  open_section "secrets" true false (fun s => run_plain sec_call_secret (kv_val s)).
+Definition sec_call_outputs : section unit := open_section "outputs" true false parse_call_output.
+
 Definition sec_workflow_call : section unit :=
   Sec "workflow_call" true true
-    [ ("inputs", pure_h (fun e => run_open "inputs" true false parse_call_input (kv_val e)));
-      ("secrets", pure_h (fun e => run_open "secrets" true false
-                                     (fun s => run_plain sec_call_secret (kv_val s)) (kv_val e)));
-      ("outputs", pure_h (fun e => run_open "outputs" true false parse_call_output (kv_val e))) ]
+    [ ("inputs", pure_h (fun e => run_plain sec_call_inputs (kv_val e)));
+      ("secrets", pure_h (fun e => run_plain sec_call_secrets (kv_val e)));
+      ("outputs", pure_h (fun e => run_plain sec_call_outputs (kv_val e))) ]
     None.
 
 (* mapping form of on: four special events, any other key is a webhook event *)
@@ -155,13 +162,14 @@ Definition events_nil (n : ynode) : bool :=
 
 (* ---------------------------------------------------------------- small sections *)
 
+Definition sec_permissions : section unit :=
+  open_section "permissions" true false (fun e => parse_string (kv_val e) false).
 Definition parse_permissions (n : ynode) : list diag :=
-  if is_scalar n then parse_string n false
-  else run_open "permissions" true false (fun e => parse_string (kv_val e) false) n.
+  if is_scalar n then parse_string n false else run_plain sec_permissions n.
 
+Definition sec_env : section unit := open_section "env" false false (fun e => parse_string (kv_val e) true).
 Definition parse_env (n : ynode) : list diag :=
-  if is_scalar n then parse_expression n
-  else run_open "env" false false (fun e => parse_string (kv_val e) true) n.
+  if is_scalar n then parse_expression n else run_plain sec_env n.
 
 Definition sec_defaults_run : section unit :=
   Sec "run" false true
@@ -231,7 +239,7 @@ Fixpoint raw_value (n : ynode) : list diag :=
       (fix go (l : list ynode) : list diag :=
          match l with [] => [] | c :: l' => raw_value c ++ go l' end) ch
   | Y KMap _ _ _ _ ch =>
-      fst (parse_mapping n true false) ++
+      fst (parse_mapping n (fst raw_map_flags) (snd raw_map_flags)) ++
       (fix go (l : list ynode) (fl : list bool) : list diag :=
          match l with
          | _ :: l1 =>
@@ -244,9 +252,12 @@ Fixpoint raw_value (n : ynode) : list diag :=
              | [] => []
              end
          | [] => []
-         end) ch (kept_flags false (pairs ch))
+         end) ch (kept_flags (snd raw_map_flags) (pairs ch))
   | Y _ _ _ _ _ _ => [at_node (DOther 29) n]
   end.
+
+Definition sec_combination : section unit :=
+  open_section "element in include/exclude section" false false (fun e => raw_value (kv_val e)).
 
 Definition parse_matrix_combinations (n : ynode) : list diag :=
   if is_scalar n then parse_expression n
@@ -255,8 +266,7 @@ Definition parse_matrix_combinations (n : ynode) : list diag :=
     if ok then
       flat_map (fun c =>
         if is_scalar c then parse_expression c
-        else run_open "element in include/exclude section" false false
-               (fun e => raw_value (kv_val e)) c) (ych n)
+        else run_plain sec_combination c) (ych n)
     else d.
 
 Definition parse_matrix_row (e : kv) : list diag :=
@@ -306,9 +316,10 @@ Definition sec_container (name : string) : section unit :=
 Definition parse_container (name : string) (n : ynode) : list diag :=
   if is_scalar n then parse_string n false else run_plain (sec_container name) n.
 
+Definition sec_services : section unit :=
+  open_section "services" false false (fun e => parse_container "services" (kv_val e)).
 Definition parse_services (n : ynode) : list diag :=
-  if may_parse_expression n then []
-  else run_open "services" false false (fun e => parse_container "services" (kv_val e)) n.
+  if may_parse_expression n then [] else run_plain sec_services n.
 
 (* ---------------------------------------------------------------- steps *)
 
@@ -411,9 +422,13 @@ Definition job_h_co (f : kv -> list diag) : handler job_st := fun st e =>
 Definition parse_needs (v : ynode) : list diag :=
   if is_scalar v then parse_string v false else parse_string_sequence v false false.
 
+Definition sec_job_secrets : section unit :=
+  open_section "secrets" false false (fun e => parse_string (kv_val e) true).
 Definition parse_job_secrets (v : ynode) : list diag :=
   if is_scalar v then if streq (yvalue v) "inherit" then [] else [at_node (DOther 34) v]
-  else run_open "secrets" false false (fun e => parse_string (kv_val e) true) v.
+  else run_plain sec_job_secrets v.
+Definition sec_job_with : section unit :=
+  open_section "with" false false (fun i => parse_string (kv_val i) true).
 
 Definition sec_job : section job_st :=
   Sec "job" false true
@@ -440,8 +455,7 @@ Definition sec_job : section job_st :=
       ("uses", fun st e =>
          (JobSt (js_steps_nil st) (js_runs_on_nil st) false (js_steps_only st) (Some (kv_pos e)),
           parse_string (kv_val e) false));
-      ("with", job_h_co (fun e => run_open "with" false false
-                                    (fun i => parse_string (kv_val i) true) (kv_val e)));
+      ("with", job_h_co (fun e => run_plain sec_job_with (kv_val e)));
       ("secrets", job_h_co (fun e => parse_job_secrets (kv_val e))) ]
     None.
 
@@ -456,7 +470,8 @@ Definition job_post (id : pos) (st : job_st) : list diag :=
 Definition parse_job (id : kv) : list diag :=
   run_section sec_job (JobSt true true true None None) (job_post (kv_pos id)) (kv_val id).
 
-Definition parse_jobs (n : ynode) : list diag := run_open "jobs" false false parse_job n.
+Definition sec_jobs : section unit := open_section "jobs" false false parse_job.
+Definition parse_jobs (n : ynode) : list diag := run_plain sec_jobs n.
 
 (* ---------------------------------------------------------------- workflow *)
 
@@ -488,6 +503,82 @@ Definition parse_workflow (doc0 : ynode) : list diag :=
   | [] => [at_node (DOther 30) doc]
   | root :: _ => run_section sec_workflow (true, true) (workflow_post doc) root
   end.
+
+(* ---------------------------------------------------------------- tables for the ties *)
+
+(* one entry per key switch of parse.go, in source order (cf. Gen/GenParseKeys.v) *)
+Record sec_info := SI {
+  si_fn : string; si_name : string; si_keys : list string; si_closed : bool;
+  si_allow_empty : bool; si_cs : bool }.
+
+Definition info {St} (fn : string) (s : section St) : sec_info :=
+  SI fn (sc_name s) (sec_keys s) (sec_closed s) (sc_allow_empty s) (sc_cs s).
+
+Definition model_sites : list sec_info :=
+  [ info "parseWorkflowDispatchEvent" sec_workflow_dispatch;
+    info "parseWorkflowDispatchEvent" sec_dispatch_input;
+    info "parseRepositoryDispatchEvent" sec_repository_dispatch;
+    info "parseWebhookEvent" sec_webhook;
+    info "parseWorkflowCallEvent" sec_workflow_call;
+    info "parseWorkflowCallEvent" sec_call_input;
+    info "parseWorkflowCallEvent" sec_call_secret;
+    info "parseWorkflowCallEvent" sec_call_output;
+    info "parseEvents" sec_on;
+    info "parseDefaults" sec_defaults;
+    info "parseDefaults" sec_defaults_run;
+    info "parseConcurrency" sec_concurrency;
+    info "parseEnvironment" sec_environment;
+    info "parseMatrix" sec_matrix;
+    info "parseStrategy" sec_strategy;
+    info "parseContainer" (sec_container "container");
+    info "parseContainer" sec_credentials;
+    info "parseStep" sec_step;
+    info "parseStep" sec_with_step;
+    info "parseRunsOn" sec_runs_on;
+    info "parseJob" sec_job;
+    info "parse" sec_workflow ].
+
+(* one entry per parseMapping / parseSectionMapping call of parse.go, in source
+   order, except the generic wrapper parseSectionMapping itself:
+   (function, allowEmpty, caseSensitive) *)
+Definition flags {St} (fn : string) (s : section St) := (fn, sc_allow_empty s, sc_cs s).
+Definition model_mappings : list (string * bool * bool) :=
+  [ ("parseScheduleEvent", fst schedule_item_flags, snd schedule_item_flags);
+    flags "parseWorkflowDispatchEvent" sec_workflow_dispatch;
+    flags "parseWorkflowDispatchEvent" sec_dispatch_inputs;
+    flags "parseWorkflowDispatchEvent" sec_dispatch_input;
+    flags "parseRepositoryDispatchEvent" sec_repository_dispatch;
+    flags "parseWebhookEvent" sec_webhook;
+    flags "parseWorkflowCallEvent" sec_workflow_call;
+    flags "parseWorkflowCallEvent" sec_call_inputs;
+    flags "parseWorkflowCallEvent" sec_call_input;
+    flags "parseWorkflowCallEvent" sec_call_secrets;
+    flags "parseWorkflowCallEvent" sec_call_secret;
+    flags "parseWorkflowCallEvent" sec_call_outputs;
+    flags "parseWorkflowCallEvent" sec_call_output;
+    flags "parseEvents" sec_on;
+    flags "parsePermissions" sec_permissions;
+    flags "parseEnv" sec_env;
+    flags "parseDefaults" sec_defaults;
+    flags "parseDefaults" sec_defaults_run;
+    flags "parseConcurrency" sec_concurrency;
+    flags "parseEnvironment" sec_environment;
+    flags "parseOutputs" sec_outputs;
+    ("parseRawYAMLValue", fst raw_map_flags, snd raw_map_flags);
+    flags "parseMatrixCombinations" sec_combination;
+    flags "parseMatrix" sec_matrix;
+    flags "parseStrategy" sec_strategy;
+    flags "parseContainer" (sec_container "container");
+    flags "parseContainer" sec_credentials;
+    flags "parseServices" sec_services;
+    flags "parseStep" sec_step;
+    flags "parseStep" sec_with_step;
+    flags "parseRunsOn" sec_runs_on;
+    flags "parseJob" sec_job;
+    flags "parseJob" sec_job_with;
+    flags "parseJob" sec_job_secrets;
+    flags "parseJobs" sec_jobs;
+    flags "parse" sec_workflow ].
 
 (* ---------------------------------------------------------------- observable for K *)
 
